@@ -6,14 +6,15 @@ import sys
 from .. import apirun, common
 from ..gbcases import build_keys, gen_dataset
 from ..kernelcases import encode_values
-from ..publicops import REDUCTIONS, ROW_OPS, approx_equal, run_op
+from ..publicops import COMPOSITE_OPS, REDUCTIONS, ROW_OPS, approx_equal, run_op
 
 PID = "C05"
 MODULES = ["GroupbyVerif.Props.C05"]
 RULE = ("seeded random datasets (1-2 keys incl. null keys, value classes f64 i64 M8[ns], <= 14 rows; also single keys of <= 26 rows in the chunked key "
         "representations: chunk-wise factorization with the threshold scaled to 8 rows, pre-chunked arrow keys with 2-3 chunks) x masks of every accepted kind (boolean incl. "
         "all-false / all-true / emptying a group, slices with negative bounds, integer positions with repeats - the last two for reductions only, the "
-        "row-aligned kernels accept boolean masks) x every maskable operation (11 reductions, cumulative, rolling, shift/diff, EMA plain and timed); "
+        "row-aligned kernels accept boolean masks) x every maskable operation (11 reductions, cumulative, rolling, shift/diff, EMA plain and timed, and the composite / helper operations "
+        "value_counts, agg with one function and with a list, ratio, density, quantile, apply); "
         "relation: op(keys, values, mask) == op(keys[mask], values[mask]) at the selected rows / as label->value mapping, and selected outputs do not "
         "change when the VALUES of unselected rows are overwritten; non-trivial = mask selects >= 2 and deselects >= 1 row; distinct = distinct (dataset, mask, op)")
 ASSUMPTIONS = ["float results compared to 1e-9 relative (summation order may differ between the two executions)"]
@@ -39,9 +40,9 @@ def gen_cases(tier, rng):
         yield fix_case(c)
     n = 2500 if tier == "quick" else 50000
     for i in range(n):
-        op = rng.choice(REDUCTIONS + ROW_OPS + ROW_OPS)
+        op = rng.choice(REDUCTIONS + ROW_OPS + ROW_OPS + COMPOSITE_OPS)
         # median goes through GroupBy.apply, which accepts boolean masks only ("mask must be a boolean array")
-        kinds = ("b", "s", "p") if (op in REDUCTIONS and op != "median") else ("b",)
+        kinds = ("b", "s", "p") if ((op in REDUCTIONS and op != "median") or op in ("value_counts", "agg1", "aggL", "ratio")) else ("b",)
         repr_ = rng.choice(["plain", "plain", "small", "arrowchunks"])
         if repr_ == "plain":
             ds = gen_dataset(rng, max_rows=14, max_labels=3, nkeys=rng.choice([1, 1, 2]), vdt=rng.choice(["f64", "f64", "i64", "M8ns"]),
@@ -61,6 +62,13 @@ def gen_cases(tier, rng):
             ds["vals"] = [None if v is None else v for v in ds["vals"]]
         if op in ("ema", "ema_timed", "var", "std", "median") and ds["vdt"] != "f64":
             ds["vdt"] = "f64"
+        if op in COMPOSITE_OPS:
+            ds["vdt"] = "f64"
+            if op in ("value_counts", "density") and len(ds["keys"]) > 1:
+                ds["keys"], ds["key_classes"] = ds["keys"][:1], ds["key_classes"][:1]
+            if repr_ != "plain" and op == "value_counts":
+                repr_ = ds["repr"] = "plain"
+                ds.pop("chunks", None)
         if ds["vdt"] == "i64":
             ds["vals"] = [1 if v is None else v for v in ds["vals"]]
         ds["sort"] = True
@@ -131,7 +139,7 @@ def evaluate(case, drv):
             keys = pa.chunked_array([whole.slice(o, l) for o, l in zip(offs, case["chunks"])], type=typ)
         gb = GroupBy(keys)
         res["tags"].append("chunked-keys" if gb.key_is_chunked else "flat-keys")
-        masked = run_op(gb, op, values, mask=mask_obj(), times=times, **kw)
+        masked = run_op(gb, op, values, mask=mask_obj(), times=times, raw_keys=keys, **kw)
     except Exception as e:  # noqa
         masked = ("error", f"{type(e).__name__}: {str(e)[:120]}")
     finally:
@@ -139,9 +147,9 @@ def evaluate(case, drv):
     try:
         if sel:
             fk, fv, ft = build(rows=sel)
-            filtered = run_op(GroupBy(fk), op, fv, mask=None, times=ft, **kw)
+            filtered = run_op(GroupBy(fk), op, fv, mask=None, times=ft, raw_keys=fk, **kw)
         else:
-            filtered = ("labels", []) if op in REDUCTIONS else ("rows", [])
+            filtered = ("labels", []) if (op in REDUCTIONS or op in COMPOSITE_OPS) else ("rows", [])
     except Exception as e:  # noqa
         filtered = ("error", f"{type(e).__name__}: {str(e)[:120]}")
     res["observed"] = dict(masked=str(masked)[:200], filtered=str(filtered)[:200])
@@ -150,7 +158,7 @@ def evaluate(case, drv):
         return res
     if masked[0] == "error" or filtered[0] == "error":
         return bad(dict(masked=str(masked)[:300], filtered=str(filtered)[:300]))
-    if op in REDUCTIONS:
+    if op in REDUCTIONS or op in COMPOSITE_OPS:
         a, b = sorted(masked[1], key=lambda t: str(t[0])), sorted(filtered[1], key=lambda t: str(t[0]))
         if not approx_equal([list(t) for t in a], [list(t) for t in b]):
             return bad(dict(masked=a, filtered=b))
